@@ -55,6 +55,13 @@ public:
             throw_error("can't open file: `{}`", path);
         }
         output_stream << data;
+        // flush and close explicitly: a failed/short `write` or `close` (disk
+        // full, quota, I/O error) must not go unnoticed
+        output_stream.close();
+        if(!output_stream)
+        {
+            throw_error("can't write file: `{}`", path);
+        }
     }
 
     void create_directories(const std::filesystem::path& path) override
